@@ -1094,7 +1094,8 @@ func (r *dagRun) monitor(runErr error, pre string) []string {
 					dependsOnFailed = true
 				}
 			}
-			if has(key) && !dependsOnFailed && cancelIdx < 0 {
+			_ = dependsOnFailed
+			if has(key) && !anyFailure {
 				v = append(v, fmt.Sprintf("task %d was skipped through ErrorSkipParents but is reported as an error", id))
 			}
 		default:
